@@ -6,6 +6,7 @@ import re
 
 from .. import jmodel as J
 from ..pymodel import package
+from ..core import norm_text
 
 EXPLANATION = (
     "R1 every TOML key path read by RenderCommand.handle / ExtendCommand.handle exists in NAUNET_CONFIG_DEFAULT and is assigned by "
@@ -213,6 +214,23 @@ def _text_consts(fl, v, seen=None):
         out |= _text_consts(fl, v[1], seen) | _text_consts(fl, v[2], seen)
     elif k == "comp":
         out |= _text_consts(fl, v[2], seen)
+        # the elements of a list of text pieces the comprehension runs over (`"".join(f"{p};" for p in pieces)`)
+        for g in v[3]:
+            if isinstance(g, tuple) and len(g) == 3 and isinstance(g[1], tuple) and g[1] and g[1][0] in ("acc", "carried", "list", "tuple", "comp", "appended", "copy"):
+                out |= _text_consts(fl, g[1], seen)
+    elif k == "attr" and v[2] == "format" and v[1][0] == "const" and isinstance(v[1][1], str):
+        out.add(v[1][1])                      # the bound method "{}: {}".format handed to map / starmap
+    elif k == "meth" and v[2] == "format":
+        out |= _text_consts(fl, v[1], seen)
+        for a in v[3]:
+            out |= _text_consts(fl, a, seen)
+    elif k == "call" and (v[1] in (("global", "map"), ("global", "starmap"), ("global", "str"), ("global", "format"), ("global", "list"), ("global", "tuple"))
+                          or (v[1][0] == "attr" and v[1][1] == ("global", "itertools") and v[1][2] == "starmap")):
+        for a in v[2]:
+            out |= _text_consts(fl, a, seen)
+    elif k == "meth" and v[1] == ("global", "itertools") and v[2] == "starmap":
+        for a in v[3]:
+            out |= _text_consts(fl, a, seen)
     elif k in ("list", "tuple"):
         for e in v[1]:
             out |= _text_consts(fl, e, seen)
@@ -610,6 +628,7 @@ def _r9(ctx, pkg):
     mod = pkg.modules[CONF]
     cfn = _content_writer(pkg)
     n = 0
+    flow = None
     var = {_toml_root(cfn): ""}
 
     def path_of(e):
@@ -637,6 +656,22 @@ def _r9(ctx, pkg):
             continue
         n += 1
         state, why = _whole(st.value, mod)
+        if state == "unknown":
+            # by value (sa.valueflow): locals and conditions on constants resolved -- `v = self._x; t[k] = v if conv is None else conv(v)` with
+            # conv bound to None is the stored field itself
+            if flow is None:
+                from ..valueflow import Flow
+                try:
+                    flow = Flow(cfn, CONF)
+                except Exception:
+                    flow = False
+            if flow:
+                from ..valueflow import simp, peval
+                f_ = next((f for f in flow.facts if f.node is st and f.kind == "store" and f.value is not None), None)
+                if f_ is not None:
+                    v_ = simp(peval(f_.value, {}))
+                    if v_[0] == "attr" and v_[1] == ("param", "self"):
+                        state, why = "ok", "the stored field itself (through locals)"
         if state == "unknown":
             ctx.unrec("R9", f"write {p}:whole", (CONF, st.lineno), f"cannot tell whether the whole value reaches the file: {why}")
         else:
@@ -793,22 +828,95 @@ def _r3(ctx, pkg):
         ctx.check(o in decl, "R3", f"--{o}", (EXAMPLE, h.lineno), f"--{o} is an option of `naunet init`")
 
 
-def _seps_reader(h, opt, org):
-    """separators at which the locals derived from option `opt` are split in InitCommand.handle"""
-    seps = set()
+_READER_METHODS = {"split", "rsplit", "strip", "lstrip", "rstrip", "replace", "items", "keys", "values", "get", "append", "extend", "setdefault", "update", "lower", "upper",
+                   "option", "validate", "from_iterable", "startswith", "endswith", "copy"}
+_READER_FUNCS = {"float", "int", "str", "dict", "list", "tuple", "len", "bool", "zip", "enumerate", "takewhile", "chain", "map", "filter", "iter", "next", "sorted", "reversed", "range",
+                 "isinstance", "ValueError", "print"}
+
+
+def _option_scopes(pkg, h, opt):
+    """-> (nodes, understood): the expressions / statements of InitCommand.handle in which the text of option `opt` is taken apart (the
+    assigned values and loops that derive from that option only) together with the bodies of the helper methods of the class those call
+    with such text (a helper left in place by the expansion: one called inside a comprehension, a generator, ..);  `understood`: every
+    call in them is a string / container operation of known meaning -- nothing takes the text apart out of sight (a regular
+    expression, partition, a function of another module)"""
     at = _origins_at(h)
+    nodes = []
     for n in _in_order(h):
         if isinstance(n, ast.Assign) and at.get(id(n)) == opt:
-            scope = [n.value]
+            nodes.append(n)
         elif isinstance(n, ast.For) and at.get(id(n)) == opt:
-            scope = [n]
-        else:
-            continue
-        for sc in scope:
-            for c in ast.walk(sc):
-                if isinstance(c, ast.Call) and isinstance(c.func, ast.Attribute) and c.func.attr == "split" and c.args and isinstance(c.args[0], ast.Constant):
-                    seps.add(c.args[0].value)
+            nodes.append(n)
+    understood = True
+    seen = set()
+    todo = list(nodes)
+    while todo:
+        sc = todo.pop()
+        for c in ast.walk(sc):
+            if not isinstance(c, ast.Call):
+                continue
+            f = c.func
+            if isinstance(f, ast.Attribute) and isinstance(f.value, ast.Name) and f.value.id in ("self", "cls") and f.attr not in ("option", "validate"):
+                callee = pkg.resolve("InitCommand", f.attr)[1] if "InitCommand" in pkg.classes else None
+                if callee is None:
+                    understood = False
+                elif id(callee) not in seen and len(seen) < 8:
+                    seen.add(id(callee))
+                    nodes.append(callee)
+                    todo.append(callee)
+            elif isinstance(f, ast.Attribute):
+                if f.attr not in _READER_METHODS:
+                    understood = False
+            elif isinstance(f, ast.Name):
+                if f.id not in _READER_FUNCS:
+                    understood = False
+            else:
+                understood = False
+    return nodes, understood
+
+
+def _seps_reader(h, opt, org, pkg=None):
+    """separators at which the text of option `opt` is split in InitCommand.handle (and in the helpers it hands such text to)"""
+    seps = set()
+    if pkg is not None:
+        scopes = _option_scopes(pkg, h, opt)[0]
+    else:
+        at = _origins_at(h)
+        scopes = [n for n in _in_order(h) if isinstance(n, (ast.Assign, ast.For)) and at.get(id(n)) == opt]
+    for sc in scopes:
+        for c in ast.walk(sc.value if isinstance(sc, ast.Assign) else sc):
+            if isinstance(c, ast.Call) and isinstance(c.func, ast.Attribute) and c.func.attr in ("split", "rsplit") and c.args and isinstance(c.args[0], ast.Constant):
+                seps.add(c.args[0].value)
     return seps
+
+
+_WRITER_CALLS = {"map", "starmap", "str", "format", "zip", "repr", "sorted", "list", "tuple", "enumerate", "import_module", "len", "int"}
+_WRITER_METHODS = {"items", "keys", "values", "format", "join", "strip", "get", "import_module", "option", "split", "starmap", "choice"}
+
+
+def _writer_understood(fl, v, seen=None) -> bool:
+    """is the composed option value built from text pieces and data by string operations of known meaning only (nothing is hidden in a
+    call this rule cannot read)?  Lists grown by appends / strings grown by += are followed to what is appended."""
+    from ..valueflow import simp, walk
+    seen = seen if seen is not None else set()
+    for x in walk(v):
+        if not isinstance(x, tuple) or not x or not isinstance(x[0], str):
+            continue
+        if x[0] == "unknown" or x[0] == "lambda":
+            return False
+        if x[0] == "call" and not ((x[1][0] == "global" and x[1][1] in _WRITER_CALLS) or (x[1][0] == "attr" and x[1][2] in _WRITER_CALLS)):
+            return False
+        if x[0] == "meth" and x[2] not in _WRITER_METHODS:
+            return False
+        if x[0] in ("acc", "carried") and len(x) >= 2 and isinstance(x[1], str) and x[1] not in seen:
+            seen.add(x[1])
+            for f in fl.facts:
+                if f.target == x[1] and f.value is not None and not _writer_understood(fl, simp(f.value), seen):
+                    return False
+            for a in fl.assigns.get(x[1], []):
+                if not _writer_understood(fl, simp(a[0]), seen):
+                    return False
+    return True
 
 
 OPTION_SEPS = {"element-replacement": {",", ":"}, "shielding": {",", ":"}, "binding": {",", "="}, "yield": {",", "="}, "rate-modifier": {",", ":"}, "ode-modifier": {";", ":", ","}}
@@ -822,17 +930,32 @@ def _r4_r6_r7(ctx, pkg):
     org = _option_origins(ih)
     for opt, exp in OPTION_SEPS.items():
         ws = {c for t in (_text_consts(efl, wv[opt]) if opt in wv else ()) for c in t if c in ":;,="}
-        rs = _seps_reader(ih, opt, org)
-        ctx.check(ws == rs == exp, "R4", f"--{opt} separators", (INIT, ih.lineno),
-                  f"the example command joins with {sorted(exp)} and the init command splits at the same characters" if ws == rs == exp else
-                  f"separator mismatch for --{opt}: written with {sorted(ws)}, split at {sorted(rs)}", expected=str(sorted(exp)), found=f"writer {sorted(ws)}, reader {sorted(rs)}")
+        rs = _seps_reader(ih, opt, org, pkg)
+        good = ws == rs == exp
+        # understood and wrong: BOTH sides are read completely (every piece of the composed text reconstructed, the option text taken apart
+        # by known string operations only) and they use different characters; a side that goes through something this rule cannot read
+        # (a helper of another module, a regular expression, ..) is not evidence of a mismatch
+        sure = opt in wv and _writer_understood(efl, wv[opt]) and _option_scopes(pkg, ih, opt)[1] and bool(_option_scopes(pkg, ih, opt)[0])
+        if good:
+            ctx.ok("R4", f"--{opt} separators", (INIT, ih.lineno), f"the example command joins with {sorted(exp)} and the init command splits at the same characters")
+        elif sure:
+            ctx.bad("R4", f"--{opt} separators", (INIT, ih.lineno), f"separator mismatch for --{opt}: written with {sorted(ws)}, split at {sorted(rs)}", expected=str(sorted(exp)), found=f"writer {sorted(ws)}, reader {sorted(rs)}")
+        else:
+            ctx.unrec("R4", f"--{opt} separators", (INIT, ih.lineno), f"cannot read both sides of --{opt} completely: writer pieces {sorted(ws)}, reader splits {sorted(rs)} (expected {sorted(exp)} on both)")
     # R6 lossy split of free text (rate / ODE modifier expressions)
     n6 = 0
     at = _origins_at(ih)
     for opt6 in ("ode-modifier", "rate-modifier"):
         # statements that split pieces of this option and index the result by constants
-        for n in _in_order(ih):
-            if isinstance(n, ast.Assign) and isinstance(n.targets[0], ast.Name) and at.get(id(n)) == opt6:
+        # (the statements of handle() that derive from this option, and those of the helpers such text is handed to)
+        cands = []
+        for sc in _option_scopes(pkg, ih, opt6)[0]:
+            if isinstance(sc, ast.Assign):
+                cands.append(sc)
+            elif isinstance(sc, (ast.FunctionDef, ast.AsyncFunctionDef)):
+                cands += [x for x in ast.walk(sc) if (isinstance(x, ast.Assign) and isinstance(x.targets[0], ast.Name)) or (isinstance(x, ast.Return) and x.value is not None)]
+        for n in cands:
+            if isinstance(n, ast.Return) or isinstance(n.targets[0], ast.Name):
                 for c in ast.walk(n.value):
                     if isinstance(c, ast.Call) and isinstance(c.func, ast.Attribute) and c.func.attr == "split" and c.args and isinstance(c.args[0], ast.Constant) and c.args[0].value == ":":
                         n6 += 1
@@ -860,6 +983,23 @@ def _r4_r6_r7(ctx, pkg):
         ctx.check(okk, "R6", "--ode-modifier: key/value unpacking", (INIT, unp[0].lineno),
                   "`key, value = om.split(':')` raises on a surplus ':' instead of dropping text", found="; ".join(ast.unparse(n)[:60] for n in unp))
     ctx.floor("R6", "free-text splits", n6, 1, (INIT, ih.lineno))
+    # R7 the dependency list of an ODE-modifier term is a multiset (`[C C]` is second order in C): nothing that takes the option text
+    # apart -- in handle() or in a helper it hands the text to -- identifies equal names (set / dict.fromkeys / a dict or set keyed by them)
+    dd = []
+    for sc in _option_scopes(pkg, ih, "ode-modifier")[0]:
+        for c in ast.walk(sc):
+            if isinstance(c, ast.Call):
+                f = ast.unparse(c.func)
+                if f in ("set", "frozenset") and c.args or f.endswith("fromkeys"):
+                    dd.append((c.lineno, ast.unparse(c)[:80]))
+            elif isinstance(c, ast.SetComp):
+                dd.append((c.lineno, ast.unparse(c)[:80]))
+    for ln, src in dd:
+        ctx.bad("R7", f"--ode-modifier: dependency list keeps repeats:{norm_text(src)[:40]}", (INIT, ln),
+                f"the species list of an --ode-modifier term goes through `{src}`, which identifies equal names: a term that is second order in one species "
+                "(`[C C]`) is written to naunet_config.toml -- and rendered -- as first order", expected="a list with one entry per occurrence", found=src)
+    if not dd:
+        ctx.ok("R7", "--ode-modifier: dependency list keeps repeats", (INIT, ih.lineno), "no set / dict.fromkeys between the option text and the dependency lists")
     # R7 fresh lists per ODE-modifier entry
     loops = _option_loops(ih, org, "ode-modifier")
     D = _alias_closure(ih, next((k.value.id for c in ast.walk(ih) if isinstance(c, ast.Call) for k in c.keywords if k.arg == "ode_modifier" and isinstance(k.value, ast.Name)), "ode_modifier"))
